@@ -128,38 +128,33 @@ unsafe fn level_swap<M: Manager>(
         // lower level, and keep the original node at the upper level (with the
         // children replaced by the newly created ones).
 
-        let grandchildren: SmallVec<[_; 2]> = children
-            .iter()
-            .map(|c| {
-                // A child of a node at the old upper level can only reference
-                // a node at the old lower, i.e., the new upper level, or any
-                // level below `lower_no`.
-                match manager.get_node(c) {
-                    Node::Inner(node) if node.level() == lower_no_pre => {
-                        // We have exclusive access to the node
-                        let children: SmallVec<[_; 2]> =
-                            M::Rules::cofactors(c.tag(), node).collect();
-                        debug_assert_eq!(children.len(), M::InnerNode::ARITY);
-                        children
-                    }
-                    node => {
-                        // Level numbers inside nodes are updated lazily (see
-                        // above), so we cannot compare against `lower_no`.
-                        debug_assert_ne!(node.level(), upper_no_pre);
-                        // The child is below the lower level, so we always have
-                        // this child
-                        (0..M::InnerNode::ARITY).map(|_| c.borrowed()).collect()
-                    }
+        // `i`-th cofactor (with respect to the old lower level) of child `c`
+        let grandchild = |c: &Borrowed<M::Edge>, i: usize| -> M::Edge {
+            // A child of a node at the old upper level can only reference
+            // a node at the old lower, i.e., the new upper level, or any
+            // level below `lower_no`.
+            match manager.get_node(c) {
+                Node::Inner(node) if node.level() == lower_no_pre => {
+                    // We have exclusive access to the node
+                    manager.clone_edge(&M::Rules::cofactor(c.tag(), node, i))
                 }
-            })
-            .collect();
+                node => {
+                    // Level numbers inside nodes are updated lazily (see
+                    // above), so we cannot compare against `lower_no`.
+                    debug_assert_ne!(node.level(), upper_no_pre);
+                    // The child skips the lower level. What this means for
+                    // the cofactors depends on the kind of decision diagram.
+                    M::Rules::skipped_cofactor(manager, c, i)
+                }
+            }
+        };
 
         let new_children: SmallVec<[_; 2]> = (0..M::InnerNode::ARITY)
             .map(|i| {
                 let res = <M::Rules as DiagramRules<_, _, _>>::reduce(
                     manager,
                     upper_no_pre,
-                    grandchildren.iter().map(|v| manager.clone_edge(&v[i])),
+                    children.iter().map(|c| grandchild(c, i)),
                 );
                 match res {
                     ReducedOrNew::Reduced(e) => e,
@@ -183,7 +178,6 @@ unsafe fn level_swap<M: Manager>(
             })
             .collect();
 
-        drop(grandchildren);
         drop(children);
         // SAFETY: we have exclusive access to all nodes at the old upper
         // level and no child is borrowed.
